@@ -121,6 +121,7 @@ def templates(cfg):
     T("grouping.through_alias", lambda p, t: t >> p.group_by(t.g) >> p.alias("z") >> p.mutate(y=p.C.b.sum(), r=p.row_number(arrange=[p.C.a.nulls_last(), p.C.b.nulls_last()])) >> p.ungroup())
     T("grouping.through_alias_keep", lambda p, t: t >> p.group_by(t.g) >> p.alias("z", keep_col_refs=True) >> p.mutate(y=t.b.sum()) >> p.ungroup())
     T("grouping.through_verbs", lambda p, t: t >> p.group_by(t.g) >> p.filter(t.a > 0) >> p.rename({"b": "c"}) >> p.select(t.g, t.b, t.a) >> p.mutate(y=t.b.max(), r=p.rank(arrange=[t.a.descending().nulls_last()])) >> p.ungroup())
+    T("grouping.through_subquery", lambda p, t: t >> p.group_by(t.g) >> p.mutate(r=p.rank(arrange=[t.b.nulls_last()])) >> p.alias("z") >> p.filter(p.C.r <= 2) >> p.mutate(n=p.C.b.sum(), k=p.row_number(arrange=[p.C.a.nulls_last(), p.C.b.nulls_last()])) >> p.ungroup())
     T("grouping.add", lambda p, t: t >> p.group_by(t.g) >> p.group_by(t.a, add=True) >> p.mutate(y=t.b.sum()) >> p.ungroup())
     T("grouping.replace", lambda p, t: t >> p.group_by(t.g) >> p.group_by(t.a) >> p.mutate(y=t.b.sum()) >> p.ungroup())
     T("grouping.ungroup_resets", lambda p, t: t >> p.group_by(t.g) >> p.ungroup() >> p.mutate(y=t.b.sum()))
